@@ -438,11 +438,8 @@ theorem first_noMatch (hs : t.typ.special = false) (hd : (descend t 64 l.prods l
 
 theorem first_missing (hs : t.typ.special = false) (hd : (descend t 64 l.prods l.st).1 = .error .missing) :
     mainLoop act (fuel + 1) (some t) ⟨ts, ft, p, []⟩ l =
-      if l.stopIf then
-        .ok ({ l with prods := (descend t 64 l.prods l.st).2.1, st := (descend t 64 l.prods l.st).2.2, stopall := true },
-             ⟨ts, ft, t :: p, []⟩)
-      else .ok ({ l with prods := (descend t 64 l.prods l.st).2.1, st := (descend t 64 l.prods l.st).2.2,
-                         wellformed := false }, ⟨ts, ft, p, []⟩) := by
+      .ok ({ l with prods := (descend t 64 l.prods l.st).2.1, st := (descend t 64 l.prods l.st).2.2,
+                    wellformed := false }, ⟨ts, ft, p, []⟩) := by
   rw [mainLoop.eq_def]
   rcases hdd : descend t 64 l.prods l.st with ⟨r, prods, st⟩
   rw [hdd] at hd
